@@ -215,6 +215,9 @@ func (w *World) RunProbe(pkg, probe string, args []string) (out string, err erro
 	if len(x.Findings) > 0 {
 		return "PANIC", nil
 	}
+	if result == nil && x.Cut > 0 {
+		return "CUT", nil // the case lies outside the encoded fragment (recorded cut): nothing to compare
+	}
 	str, ok := result.(Str)
 	if !ok {
 		return "", fmt.Errorf("probe returned %T", result)
